@@ -183,8 +183,6 @@ R["ibldsp.voltage.decompress_destripe_cbin"] = [
     ("V__ = numpy.zeros((ncv, NBATCH), dtype=A__)", {"V__": "dephas"}),
     ("V__ = pyfftw.FFTW(A__, B__, axes=C__, direction='FFTW_FORWARD', threads=D__)", {"V__": "fft_object"}),
     ("V__ = numpy.exp(A__)", {"V__": "DEPHAS"}),
-    ("V__ = 1 / sr.sample2volts", {"V__": "intnorm"}),
-    ("V__ = numpy.where(channel_labels != 3)[0]", {"V__": "inside_brain"}),
 ]
 R["ibldsp.voltage.decompress_destripe_cbin.my_function"] = [
     ("V__ = spikeglx.Reader(sr_file, **reader_kwargs)", {"V__": "_sr"}),
